@@ -135,6 +135,25 @@ impl StreamChunker {
     }
 }
 
+/// Verification hooks: build a [`StreamChunker`] in an arbitrary state and
+/// observe its carry-over buffer, so that bounded checkers can prove one
+/// `pump` step from every state instead of replaying whole streams.
+#[cfg(woodpile_verif)]
+#[allow(missing_docs)]
+impl StreamChunker {
+    pub fn verif_from_parts(buf: AnchoredSlice, offset: u64) -> Self {
+        StreamChunker { buf, offset }
+    }
+
+    pub fn verif_buf(&self) -> &[u8] {
+        self.buf.slice()
+    }
+
+    pub fn verif_offset(&self) -> u64 {
+        self.offset
+    }
+}
+
 impl StreamReader {
     /// Returns a fresh default-constructed [`StreamReader`]
     #[must_use]
